@@ -210,6 +210,24 @@ func (r *Run) finish(wall time.Duration) {
 		}
 	}
 
+	// the regenerated half of the tie could not be produced for this property's own table
+	if haveAudit {
+		for _, n := range au.Extract {
+			if strings.Contains(n, "static tie unavailable") &&
+				((r.Prop == "C09" && strings.Contains(n, "access table")) || (r.Prop == "C11" && strings.Contains(n, "deferred calls"))) {
+				foundInput := false
+				for _, v := range r.violations {
+					if !v.noInput {
+						foundInput = true
+					}
+				}
+				if !foundInput {
+					r.violations = append(r.violations, violation{sig: "translator", what: "the translator could not regenerate this property's table from the current source: the theorems are only known to hold for the table of the verified tree", replay: n, noInput: true})
+				}
+			}
+		}
+	}
+
 	exit := 0
 	// prefer violations with a concrete input
 	sort.SliceStable(r.violations, func(i, j int) bool { return !r.violations[i].noInput && r.violations[j].noInput })
